@@ -428,6 +428,15 @@ def c19(ctx):
                              'start of an ill-formed UTF-8 sequence)' % (pos, data[pos])))
         if head.startswith('err:InvalidEnumTag') and not any(data[pos:pos + 8]):
             out.append((cid, 'InvalidEnumTag reported at %d where the tag bytes are zero' % pos))
+        # the other entry points of the same validation (FlatWrap::from_wrapped_bytes, from_mut_bytes) report the
+        # same kind at the same byte (the harness compares the whole error: kind and position)
+        w = kv.get('wrap', 'same')
+        if w.startswith('DIFF'):
+            fl = w.split(':')
+            if len(fl) >= 4 and (fl[1] == 'false' or fl[3] == 'false'):
+                out.append((cid, 'from_bytes reports %s, but FlatWrap::from_wrapped_bytes / from_mut_bytes report a different '
+                                 'error for the same slice (%s: same error : same content : same error of from_mut_bytes)'
+                                 % (head, w)))
     return out, n
 
 
@@ -646,7 +655,7 @@ PROJECTION = {
     'C06': {'M': ['view', 'size']},
     'C14': {'E': ['buf'], 'A': ['buf'], 'D': ['buf']},
     'C15': {'E': [], 'D': []},
-    'C17': {'L': None, 'V': [], 'E': ['buf', 'val', 'view', 'size']},
+    'C17': {'L': None, 'V': [], 'E': ['buf', 'val', 'view', 'size'], 'M': ['blen', 'rt', 'rtview', 'size']},
     'C18': {'A': ['buf', 'val', 'view', 'size']},
     'C19': {'V': [], 'M': []},
     'C20': {'D': ['buf', 'val', 'view', 'size']},
